@@ -77,7 +77,7 @@ def plan(tier):
         shapes = [((1,), 0b1, 0, 0),
                   ((1, 1), 0b11, 0, 0), ((1, 1), 0b11, 1, 0), ((1, 1), 0b11, 2, 0),
                   ((1, 2), 0b11, 0, 0), ((1, 2), 0b01, 0, 0), ((1, 2), 0b11, 0, 1), ((1, 2), 0b11, 1, 0),
-                  ((1, 1, 2), 0b111, 0, 0), ((1, 2, 3), 0b111, 0, 0), ((1, 2, 3), 0b011, 2, 0), ((1, 2, 2), 0b111, 2, 0),
+                  ((1, 1, 2), 0b111, 0, 0), ((1, 2, 3), 0b111, 0, 0), ((1, 2, 3), 0b011, 2, 0), ((1, 2, 2), 0b111, 2, 0), ((1, 2, 1), 0b111, 2, 0),
                   # voter/learner changes by re-adding an id: promotion and demotion
                   ((1, 2, 2), 0b101, 0, 0), ((1, 2, 2), 0b011, 0, 0), ((1, 1), 0b01, 1, 0)]
     else:
